@@ -46,7 +46,8 @@ def generate(rng, tier):
             sk['usage'] = 'E' if not world.can_sign(sk['alg']) else 'S'
         # creation times: often equal (the alias layers are ordered by creation time)
         created = t0 + rng.choice([0, 0, 1, 2, 3600, 86400 * 365]) * 1_000_000
-        keys['k%d' % i] = {'alg': alg, 'uids': uids, 'subkeys': subkeys, 'created_us': created, 'usage': 'CS'}
+        keys['k%d' % i] = {'alg': alg, 'uids': uids, 'subkeys': subkeys, 'created_us': created, 'usage': 'CS',
+                           'created_tz': 'naive_utc' if rng.random() < 0.2 else None}
     steps = []
     nsteps = rng.randint(5, 40 if tier == 'thorough' else 24)
     knames = sorted(keys)
